@@ -221,6 +221,12 @@ class _Ops:
             return out
         if isinstance(e, ast.Call) and isinstance(e.func, ast.Name) and e.func.id in ("list", "tuple", "iter") and len(e.args) == 1:
             return self._list_elems(g, e.args[0], binds, depth + 1)
+        if isinstance(e, ast.Call) and isinstance(e.func, ast.Attribute) and e.func.attr in ("values", "items") and not e.args and not e.keywords:
+            # the values / (key, value) pairs of a dict of rulers (`self._rulers().values()`)
+            des = self._dict_elems(g, e.func.value, depth + 1)
+            if e.func.attr == "values":
+                return [(h, v, ctx) for (h, k, v, ctx) in des]
+            return [(h, ast.Tuple(elts=[k, v], ctx=ast.Load()), ctx) for (h, k, v, ctx) in des]
         if isinstance(e, ast.Call):
             cs = self.c.cg.site_of.get(e)
             out = []
@@ -232,6 +238,38 @@ class _Ops:
                         out += self._list_elems(h, rt.value, {}, depth + 1)
                     if isinstance(rt, ast.Yield) and rt.value is not None:
                         out.append((h, rt.value, rt))
+            return out
+        return []
+
+    def _dict_elems(self, g: Func, e: ast.AST, depth: int) -> list[tuple[Func, ast.AST, ast.AST, ast.AST]]:
+        """(function, key expr, value expr, context node) of a dict-valued expression: a literal, a comprehension, a local dict
+        (its definitions plus the `d[k] = v` stores), `dict(<dict>)`, or a helper of the class returning one."""
+        if depth > 5:
+            return []
+        if isinstance(e, ast.Dict):
+            return [(g, k, v, v) for k, v in zip(e.keys, e.values) if k is not None]
+        if isinstance(e, ast.DictComp):
+            return [(g, e.key, e.value, e.value)]
+        if isinstance(e, ast.Name):
+            out: list[tuple[Func, ast.AST, ast.AST, ast.AST]] = []
+            for d in self._defs(g, e.id):
+                out += self._dict_elems(g, d, depth + 1)
+            for n in own_nodes(g.node):
+                if isinstance(n, ast.Assign) and len(n.targets) == 1 and isinstance(n.targets[0], ast.Subscript) \
+                        and isinstance(n.targets[0].value, ast.Name) and n.targets[0].value.id == e.id:
+                    out.append((g, n.targets[0].slice, n.value, n.value))
+            return out
+        if isinstance(e, ast.Call) and isinstance(e.func, ast.Name) and e.func.id == "dict" and len(e.args) == 1 and not e.keywords:
+            return self._dict_elems(g, e.args[0], depth + 1)
+        if isinstance(e, ast.Call):
+            cs = self.c.cg.site_of.get(e)
+            out = []
+            for h in (cs.callees if cs is not None else []):
+                if h.cls != g.cls:
+                    continue
+                for rt in own_nodes(h.node):
+                    if isinstance(rt, ast.Return) and rt.value is not None:
+                        out += self._dict_elems(h, rt.value, depth + 1)
             return out
         return []
 
